@@ -4,9 +4,9 @@
 HERE="$(cd "$(dirname "$0")/.." && pwd)"
 cd "$HERE" || exit 9
 export VERIF_NO_MINIMISE=1   # detection only: skip the delta-debugging of every replay
-OUT=$HERE/seeded/MATRIX.json
+OUT=$HERE/seeded/MATRIX${MATRIX_ONLY:+-$MATRIX_ONLY}.json   # MATRIX_ONLY=C10|C12 restricts the run to one property
 echo "[" > $OUT.tmp; FIRST=1
-for d in $HERE/seeded/C1*/; do
+for d in $HERE/seeded/${MATRIX_ONLY:-C1}*/; do
   n=$(basename $d); p=${n%%-*}
   if [ "$p" = "C10" ] && [ "$MATRIX_FULL" != "1" ]; then export VERIF_SKIP=miri; ONLY="VERIF_SKIP_MIRI=1"; else ONLY=""; fi
   START=$(date +%s)
